@@ -50,9 +50,17 @@ enum Site {
     FormatXattrName,
     TimeSelector,
     Device,
+    /// a file action to the right of an action that needs no framing (-print, a line-oriented
+    /// -printf, -quit): the manager choice must still see the file action
+    FPrintFileAfterPrint,
+    FPrintfFileAfterPrintf,
+    FPrint0FileAfterQuit,
 }
 
-const SITES: [Site; 16] = [
+const SITES: [Site; 19] = [
+    Site::FPrintFileAfterPrint,
+    Site::FPrintfFileAfterPrintf,
+    Site::FPrint0FileAfterQuit,
     Site::Name,
     Site::IName,
     Site::Path,
@@ -103,6 +111,12 @@ fn tree(site: Site, s: &str) -> Option<Expr> {
             a(Action::Printf(vec![Fmt::Field(Field::AccessFmt(c)), nl()]))
         }
         Site::Device => t(Test::Name("x".into())),
+        Site::FPrintFileAfterPrint => Expr::and(Expr::and(Expr::Test(Test::Name("sibling".into())), Expr::Action(Action::Print)), Expr::Action(Action::FPrint(s.into()))),
+        Site::FPrintfFileAfterPrintf => Expr::or(
+            Expr::and(Expr::Test(Test::Name("sibling".into())), Expr::Action(Action::Printf(vec![Fmt::Field(Field::Name), nl()]))),
+            Expr::Action(Action::FPrintf(s.into(), vec![Fmt::Field(Field::Name), nl()])),
+        ),
+        Site::FPrint0FileAfterQuit => Expr::List(Box::new(Expr::and(Expr::Test(Test::Name("sibling".into())), Expr::Action(Action::Quit))), Box::new(Expr::Action(Action::FPrint0(s.into())))),
     })
 }
 
@@ -249,7 +263,7 @@ pub fn check(site: Site, s: &str, acc: &mut Acc) {
         return;
     }
     // (3) the literal at the site decodes to exactly the user string
-    let is_file_site = matches!(site, Site::FPrintFile | Site::FPrint0File | Site::FPrintfFile);
+    let is_file_site = matches!(site, Site::FPrintFile | Site::FPrint0File | Site::FPrintfFile | Site::FPrintFileAfterPrint | Site::FPrintfFileAfterPrintf | Site::FPrint0FileAfterQuit);
     let is_literal_site = matches!(site, Site::PrintfLiteral | Site::FPrintfLiteral);
     if is_file_site {
         // framed mode: the file name travels in the destination table, not in the program
@@ -380,6 +394,69 @@ fn escaped_pairs() -> Acc {
     })
 }
 
+/// Runs of two and three adjacent octal escapes (quote, backslash, tilde, Latin-1 and UTF-8 lead /
+/// continuation bytes, NUL, newline, a letter) inside a format: each escape stands for its own
+/// character, whatever its neighbours are, and none of them may end the template's string.
+fn octal_runs() -> Acc {
+    let vals: [u16; 12] = [0o42, 0o134, 0o176, 0o253, 0o240, 0o377, 0o303, 0o251, 0o101, 0o12, 0o0, 0o45];
+    let mut runs: Vec<Vec<u16>> = vec![];
+    for a in vals {
+        for b in vals {
+            runs.push(vec![a, b]);
+            for c in vals {
+                runs.push(vec![a, b, c]);
+            }
+        }
+    }
+    par_cases(runs.len() as u64, |i, acc| {
+        let run = &runs[i as usize];
+        for (pre, post) in [(true, true), (false, false)] {
+            let mut f = vec![];
+            if pre {
+                f.push(Fmt::Field(Field::Name));
+                f.push(Fmt::Lit(" ".into()));
+            }
+            f.extend(run.iter().map(|n| Fmt::Special(Special::Ascii(*n))));
+            if post {
+                f.push(Fmt::Field(Field::SizeBytes));
+                f.push(nl());
+            }
+            let tree = Expr::and(Expr::Test(Test::Name("sibling".into())), Expr::Action(Action::Printf(f)));
+            acc.states += 1;
+            acc.transitions += 1;
+            acc.count("octal_runs", 1);
+            let Some(real) = conv::expr_to_real(&tree) else { continue };
+            let wit = json!({"kind": "c04-octal-run", "tree": tree});
+            match compile_handle(&real, &subject::options(false, None)) {
+                C::Ok(h) => {
+                    if let Ok(text) = h.scheme("/dev/mdt0") {
+                        match Prog::read(&text).and_then(|p| p.shape().map(|_| p)) {
+                            Ok(_) => {}
+                            Err(e) => {
+                                acc.violate(Violation::new("C04:unreadable:octal-run", format!("{}: {e}", tree.show()), wit));
+                                continue;
+                            }
+                        }
+                    }
+                }
+                C::Err(e) => {
+                    acc.violate(Violation::new("C04:refused:octal-run", format!("{}: {e}", tree.show()), wit));
+                    continue;
+                }
+                C::Panic(p) => {
+                    acc.violate(Violation::new(format!("C04:panic:{}", panic_site(&p)), format!("{}: {p}", tree.show()), wit));
+                    continue;
+                }
+            }
+            let mut scratch = Acc::new();
+            match c02::validate(&tree, &real, &mut scratch) {
+                Ok(_) => acc.validated += 1,
+                Err(m) => acc.violate(Violation::new(format!("C04:escape-not-verbatim:octal-run:{}", m.aspect), format!("{}: {}", tree.show(), m.detail), wit)),
+            }
+        }
+    })
+}
+
 fn nth_string(mut idx: u64, len: usize) -> String {
     let mut s = String::new();
     for _ in 0..len {
@@ -446,6 +523,25 @@ pub fn run(ctx: &Ctx) -> i32 {
     log::set_max_level(log::LevelFilter::Off);
     acc = acc.merge(verbose);
     acc = acc.merge(escaped_pairs());
+    acc = acc.merge(octal_runs());
+    // every Unicode scalar value inside the user string (quick: the whole Basic Multilingual Plane
+    // and every 16th scalar of the other planes at four kinds of site; thorough: all, every site)
+    {
+        let thorough = ctx.tier == speclib::report::Tier::Thorough;
+        let sites: Vec<Site> = if thorough { SITES.iter().copied().filter(|s| *s != Site::TimeSelector).collect() } else { vec![Site::Name, Site::FPrintFile, Site::PrintfLiteral, Site::Xattr, Site::Device] };
+        let ns = sites.len() as u64;
+        acc = acc.merge(par_cases(0x110000 * ns, |i, acc| {
+            let cp = (i / ns) as u32;
+            if !thorough && cp >= 0x10000 && cp % 16 != 0 {
+                return;
+            }
+            if let Some(c) = char::from_u32(cp) {
+                if cp >= 0x80 {
+                    check(sites[(i % ns) as usize], &format!("a{c}b"), acc);
+                }
+            }
+        }));
+    }
     let dict = dictionary();
     acc = acc.merge(par_cases((dict.len() * SITES.len()) as u64, |i, acc| {
         let site = SITES[(i % SITES.len() as u64) as usize];
@@ -471,6 +567,9 @@ pub fn run(ctx: &Ctx) -> i32 {
 
 pub fn replay(w: &Value) -> Vec<Violation> {
     let mut acc = Acc::new();
+    if w["kind"] == "c04-octal-run" {
+        return octal_runs().violations.into_values().map(|(v, _)| v).collect();
+    }
     if w["kind"] == "c04-pair" || w["kind"] == "environment-value" {
         // the pair family is small: run it again (an environment finding is re-derived by a full run)
         return escaped_pairs().violations.into_values().map(|(v, _)| v).collect();
